@@ -29,8 +29,15 @@ Url == PathOf(base, cur, rest, ls.names, ls.default)
 
 \* the URL always reads as the current locale (no prefix for the default locale)
 ReadsBack == ReadLocale(Url, base, ls.names) = (IF cur = ls.default THEN None ELSE cur)
+\* A route with several optional parameters around a localized segment maps two different URLs of one locale to the same URL of
+\* another one when a parameter VALUE happens to be another locale's spelling of that segment (/about/a-propos and /a-propos/about
+\* both become /fr/a-propos/a-propos): no rewriting can be reversible there.  Such URLs stay in the universe - the code must still
+\* agree with Localize on them - but reversibility and stability are stated for URLs without such a value.
+AllLocNames == UNION { { LocName[k][x] : x \in DOMAIN LocName[k] } : k \in DOMAIN LocName }
+CollidingValue(m) == \E bd \in m.b : \E j \in DOMAIN bd[2] : bd[2][j] \in AllLocNames
 \* switching away and back gives the original path
-RoundTrip == [][\A b \in DOMAIN ls.names : Switch(b) => Localize(table, rest', b, cur) = rest]_vars
+RoundTrip == [][\A b \in DOMAIN ls.names : Switch(b) =>
+                  (Localize(table, rest', b, cur) = rest \/ CollidingValue(MatchUrl(Prefix(cur, ls.names, ls.default) \o rest, ls.names, ls.order, ls.default, table)))]_vars
 \* a switch keeps the number of segments and every segment that is not a localized one
 KeepsShape == [][Len(rest') = Len(rest)]_vars
 
@@ -41,5 +48,5 @@ MatchedAsCurrent == Matches(table, rest, cur) =>
     LET m == MatchAt(cur, rest) IN m.matched /\ m.loc = (IF cur = ls.default THEN None ELSE cur) /\ m.route = RouteOf(table, rest, cur)
 \* a switch keeps the route and every parameter binding
 RouteStable == [][\A b \in DOMAIN ls.names : (Switch(b) /\ Matches(table, rest, cur)) =>
-                     LET m == MatchAt(cur, rest)  m2 == MatchAt(cur', rest') IN m2.matched /\ m2.route = m.route /\ m2.b = m.b]_vars
+                     LET m == MatchAt(cur, rest)  m2 == MatchAt(cur', rest') IN (m2.matched /\ m2.route = m.route /\ m2.b = m.b) \/ CollidingValue(m)]_vars
 =============================================================================
